@@ -16,14 +16,16 @@ HOLDERS = ["buffer", "delay", "rate_limit", "map_async", "timed_window", "partit
 
 @st.composite
 def md_case(draw, tier="quick", kinds=ALL_KINDS, first=HOLDERS, faults=False, max_nodes=5,
-            max_actions=30, modes=("sync", "fut", "coro", "fut"), max_entries=2):
+            max_actions=30, modes=("sync", "fut", "coro", "fut"), max_entries=2, none_ok=False,
+            md_values=(1, 1, 1, 2, 3, 0), min_actions=1):
     spec = draw(specs.pipeline_spec(kinds=kinds, max_nodes=max_nodes, max_entries=max_entries,
                                     feedback=False, force_first=draw(st.sampled_from(first))))
     spec = draw(c02.with_sinks(spec))
     sinks = [i for i, nd in enumerate(spec["nodes"]) if nd["k"] == "sink"]
     cm = {str(i): draw(st.sampled_from(list(modes))) for i in sinks}
-    acts = draw(schedule.actions_strategy(spec, max_actions=max_actions))
-    md = draw(st.lists(st.sampled_from([1, 1, 1, 2, 3, 0]), min_size=1, max_size=6))
+    acts = draw(schedule.actions_strategy(spec, max_actions=max_actions, none_ok=none_ok,
+                                          min_actions=min_actions))
+    md = draw(st.lists(st.sampled_from(list(md_values)), min_size=1, max_size=8))
     case = {"spec": spec, "cmodes": cm, "actions": acts, "md": md}
     if faults and draw(st.integers(0, 2)) == 0:
         fn_nodes = [i for i, nd in enumerate(spec["nodes"])
